@@ -775,7 +775,15 @@ class Sort(EnvironmentFilter):
 
         full_sorter = lambda interaction: tuple(interaction['context']                                 )
         list_sorter = lambda interaction: tuple(interaction['context'][key]       for key in self._keys)
-        dict_sorter = lambda interaction: tuple(interaction['context'].get(key,0) for key in self._keys)
+        dict_sorter = lambda interaction: tuple(get_or_0(interaction['context'],key) for key in self._keys)
+
+        def get_or_0(context, key):
+            #A sparse context only has to be indexable. It need not have a `get` with the semantics of dict.get
+            #(e.g., the rows lazily decoded from sparse data files pass `get` on to their still undecoded row).
+            try:
+                return context[key]
+            except KeyError:
+                return 0
 
         first, interactions = peek_first(interactions)
         is_sparse           = isinstance(first['context'],primitives.Sparse)
